@@ -9,12 +9,7 @@ namespace ALV.C20
 variable {K : Type} [Field K] [LinearOrder K] [IsStrictOrderedRing K]
 set_option linter.unusedSectionVars false
 
-/-- specification as a recursion: `delta` is the correction accumulated so far -/
-def uFrom (fl : K → K) (md step : K) : K → K → List K → List K
-  | _, _, [] => []
-  | d0, delta, d1 :: rest =>
-    (d1 + (delta + corr fl md step (d1 - d0))) ::
-      uFrom fl md step d1 (delta + corr fl md step (d1 - d0)) rest
+/- `uFrom` (the recursion over the accumulated correction) is defined in `ALV.Spec.C20`. -/
 
 /-! ### the residue of least absolute value -/
 
@@ -176,6 +171,19 @@ theorem unwrap_eq_unwrapSpec (fl : K → K) (hf : IsFloor fl) (md step : K) (hs 
     have h := uFrom_eq fl md step rest [] d0
     simp only [List.nil_append, diffs, List.map_nil, sumL_nil] at h
     simp only [unwrap, unwrapSpec, unwrapLoop_eq_uFrom fl hf md step hs, sub_self, h,
+      List.length_cons, List.range_succ_eq_map, List.map_cons, List.map_map]
+    congr 1
+    simp [diffs]
+
+/-- the one-pass form of the specification is the closed form (no hypothesis on `fl`, `step`) -/
+theorem unwrapSpecRec_eq (fl : K → K) (md step : K) (xs : List K) :
+    unwrapSpecRec fl md step xs = unwrapSpec fl md step xs := by
+  cases xs with
+  | nil => simp [unwrapSpecRec, unwrapSpec]
+  | cons d0 rest =>
+    have h := uFrom_eq fl md step rest [] d0
+    simp only [List.nil_append, diffs, List.map_nil, sumL_nil] at h
+    simp only [unwrapSpecRec, unwrapSpec, h,
       List.length_cons, List.range_succ_eq_map, List.map_cons, List.map_map]
     congr 1
     simp [diffs]
